@@ -327,6 +327,59 @@ def build_join_step(ck, v6, src, obs=None, contract=True):
             "reach": {"reach_ok": z3.And(pc, okk), "reach_denied": z3.And(pc, z3.Not(okk))}}
 
 
+def build_check_ip(ck, v6, src, obs=None, contract=True):
+    """validation::RateLimiter::check_ip (the per-IP limiter on accepted connections): one attempt from an ARBITRARY limiter state.
+    The limiter is one Engine<IpAddr>: its global bucket, then the bucket keyed by the address."""
+    eng = ck.engine() if obs is None else ck.meta_engine()
+    maxr, burst = src.bv("cfg.max", 32), src.bv("cfg.burst", 32)
+    n = 16 if v6 else 4
+    ipb, ob = src.bytes("ip", n), src.bytes("other", n)
+    fam = bv(1 if v6 else 0, 8)
+    k, k2 = z3.Concat(fam, key_bv(ipb)), z3.Concat(fam, key_bv(ob))
+    probes = {"cand": k, "other": k2}
+    prev = src.instant("prev")
+    e = in_engine(src, "V", 60, 8 + 8 * n, maxr, burst, probes)
+    hyps = list(src.hyps) + [cfg_ok(maxr, burst), key_hyps(e, k, prev), key_hyps(e, k2, prev), bucket_wf(e.f[1], prev), bucket_inv(e.f[1], maxr, burst)]
+    if obs is None:
+        st = State()
+        info = EnumInfo("IpAddr", ["V4", "V6"])
+        ip = VEnum(info, fam, {(1 if v6 else 0): (ipb,)})
+        re_ = eng.alloc(st, e)
+        adt = eng.struct_adt("validation::RateLimiter")
+        from values import VOpaque
+
+        lim = VStruct([re_ if f == "engine" else VOpaque("RateLimiter." + f) for f, _ in adt.fields], adt.name)
+        st.clock = prev
+        eng.clock_readings = []
+        if contract:
+            install_bucket_contract(ck, eng)
+        st2, ret = eng.call(ck.fn_in("RateLimiter", "check_ip"), [eng.alloc(st, lim), eng.alloc(st, ip)], st)
+        e2 = eng.load(st2, re_)
+        okk = ret.idx == bv(0, 8)
+        _, ph = pin_clock(src, eng, st2)
+        hyps += ph
+        pc = st2.pc
+    else:
+        e2 = obs_engine(obs, "V", 8 + 8 * n, probes)
+        okk = z3.BoolVal(bool(obs["ok"]))
+        pc = z3.BoolVal(True)
+    g0, g1 = e.f[1], e2.f[1]
+    G = {}
+    G["ok_charges_the_global_bucket_and_the_addresses_own_bucket"] = z3.Implies(okk, z3.And(
+        charged(e, e2, k), z3.UGE(g1.f[2], 1), z3.ULE(g1.f[2], maxr), z3.Or(g1.f[2] == g0.f[2] + 1, g1.f[2] == 1)))
+    G["other_addresses_never_pay_for_this_one"] = z3.Implies(k2 != k, same_bucket_at(e.f[2], e2.f[2], k2))
+    G["configuration_untouched"] = same_value(e.f[0], e2.f[0])
+    b0, b1 = map_bucket(e.f[2], k), map_bucket(e2.f[2], k)
+    G["bucket_invariants_after_any_outcome"] = z3.And(bucket_inv(g1, maxr, burst), z3.Implies(z3.Select(e2.f[2].present, k), bucket_inv(b1, maxr, burst)))
+    G["counts_only_grow_within_a_window"] = z3.And(
+        z3.Implies(time_eq(g1.f[3], g0.f[3]), z3.UGE(g1.f[2], g0.f[2])),
+        z3.Implies(z3.And(z3.Select(e.f[2].present, k), z3.Select(e2.f[2].present, k), time_eq(b1.f[3], b0.f[3])), z3.UGE(b1.f[2], b0.f[2])))
+    G["a_refusal_by_the_global_level_leaves_the_addresses_bucket_alone"] = z3.Implies(
+        z3.And(z3.Not(okk), z3.Or(z3.And(time_eq(g1.f[3], g0.f[3]), g1.f[2] == g0.f[2]), z3.And(z3.Not(time_eq(g1.f[3], g0.f[3])), g1.f[2] == 0))), same_bucket_at(e.f[2], e2.f[2], k))
+    return {"eng": eng, "hyps": hyps, "goals": {g: z3.Implies(pc, f) for g, f in G.items()},
+            "reach": {"reach_ok": z3.And(pc, okk), "reach_denied": z3.And(pc, z3.Not(okk))}}
+
+
 def build_limiter_new(ck, src, obs=None):
     """JoinRateLimiter::new wires the configuration into four engines: per-/64, per-/48, per-/24 with a one-hour window and
     burst = max = the configured per-hour number; global with a one-minute window, max = per-minute number, burst = configured burst"""
@@ -367,14 +420,15 @@ def build_limiter_new(ck, src, obs=None):
 def register(ck, tag, driver, params, builder):
     src = Src()
     R = builder(src, None)
-    rp = harness.make_replayer(ck, "rate_limit", driver, lambda s, obs: builder(s, obs), params, race_driver=("engine_key_race" if driver not in ("bucket_step", "limiter_new") else None))
+    rp = harness.make_replayer(ck, "validation" if driver == "check_ip" else "rate_limit", driver, lambda s, obs: builder(s, obs), params,
+                               race_driver=("engine_key_race" if driver in ("engine_key", "join_step") else None))
     ck.register_src(driver, params, src)
     prefs = clock_freeze_pref(R["eng"])
     precise = {}
 
     def refine_for(g):
         """the same obligation with Bucket::try_consume executed on its real body instead of its contract (built on demand, once)"""
-        if driver not in ("engine_key", "join_step"):
+        if driver not in ("engine_key", "join_step", "check_ip"):
             return None
 
         def mk():
@@ -390,7 +444,7 @@ def register(ck, tag, driver, params, builder):
     for g, f in R["reach"].items():
         ck.reach(f"{tag}/{g}", R["eng"], R["hyps"], f)
     ck.side(f"{tag}/side", R["eng"], R["hyps"], on_sat=rp)
-    if driver not in ("bucket_step", "limiter_new"):
+    if driver in ("engine_key", "join_step"):
         ck.single_critical_section(tag, R["eng"], R["hyps"], on_sat=rp)
     ck.out.samples.append({"obligation": tag, "goals": list(R["goals"])})
 
@@ -400,6 +454,8 @@ def builder_for(ck, driver, params):
         return lambda s, obs: build_limiter_new(ck, s, obs)
     if driver == "bucket_step":
         return lambda s, obs: build_bucket_step(ck, params["window_s"], s, obs)
+    if driver == "check_ip":
+        return lambda s, obs, contract=True: build_check_ip(ck, params["v6"], s, obs, contract)
     if driver == "engine_key":
         return lambda s, obs, contract=True: build_engine_key(ck, params["window_s"], s, obs, contract)
     return lambda s, obs, contract=True: build_join_step(ck, params["v6"], s, obs, contract)
@@ -416,6 +472,10 @@ def run(tier):
         pp = {"v6": v6}
         t = "join_step[v6]" if v6 else "join_step[v4]"
         ck.guarded(t, lambda pp=pp, t=t: register(ck, t, "join_step", pp, builder_for(ck, "join_step", pp)))
+    for v6 in ((True, False) if tier != "quick" else (False,)):
+        pp = {"v6": v6}
+        t = "check_ip[v6]" if v6 else "check_ip[v4]"
+        ck.guarded(t, lambda pp=pp, t=t: register(ck, t, "check_ip", pp, builder_for(ck, "check_ip", pp)))
     ck.guarded("limiter_new", lambda: register(ck, "limiter_new", "limiter_new", {}, builder_for(ck, "limiter_new", {})))
     ck.run_queries()
     import kanicheck
@@ -425,10 +485,11 @@ def run(tier):
     ck.out.bounds = [
         "Bucket::try_consume: one step from an arbitrary bucket (0<=tokens<=burst finite f64, count<=max, timestamps<=now), cfg 1<=max,burst<=1e6, window in {60s,3600s} (the two the limiter constructs)",
         "Engine::try_consume_key / JoinRateLimiter::check_join_allowed: one call from an ARBITRARY limiter state: LruCaches as SMT arrays over 128/32/8-bit keys, arbitrary address, below the 100k-key LRU bound",
+        "validation::RateLimiter::check_ip (per-IP limiter on accepted connections, 60 s window): one attempt from an arbitrary limiter state, IPv4 address (quick) / IPv4 and IPv6 (thorough)",
         "clock: arbitrary non-decreasing Instants, seconds < 2^40",
         "Kani: prefix helpers for all 2^128 / 2^32 addresses (unwind 18)",
     ]
-    ck.out.outside = ["concurrent callers: locks are identity in the symbolic execution; the only concurrency obligation is structural (each lock acquired at most once per call, so lookup+update of a key is one critical section), confirmed natively by a multi-threaded stress driver when violated", "LRU eviction at 100k keys", "validation::RateLimiter::check_ip and TransportHandle listener wiring (async)",
+    ck.out.outside = ["concurrent callers: locks are identity in the symbolic execution; the only concurrency obligation is structural (each lock acquired at most once per call, so lookup+update of a key is one critical section), confirmed natively by a multi-threaded stress driver when violated", "LRU eviction at 100k keys", "TransportHandle listener wiring (where check_ip is called: spawned accept loop)",
                       "symbolic window lengths other than 60 s / 3600 s",
                       "multi-step arrival sequences are covered by induction over the one-step relations (bucket invariant + count/window relation), not unrolled"]
     ck.out.assumptions = ["single-threaded execution",
